@@ -41,6 +41,7 @@ SchedStep ==
   \/ \E k \in conf.ckeys : CloseUseful(k) /\ Close(k) /\ Rec("Close", "", k, "")
   \/ \E t \in {e[1] : e \in idx} : TagDelete(t) /\ Rec("TagDelete", "", t, "")
   \/ \E n \in Mans : ManifestDelete(n) /\ Rec("ManifestDelete", "", n, "")
+  \/ \E p \in conf.retags : Retag(p) /\ Rec("Retag", "", p[1], p[2])
   \/ \E b \in Nodes : PushBlob(b) /\ Rec("PushBlob", "", b, "")
   \/ PushBlobBad /\ Rec("PushBlobBad", "", "", "")
   \/ \E p \in conf.pmans : PushManifest(p) /\ Rec("PushManifest", "", p[1], p[2])
